@@ -71,34 +71,25 @@ def vec_child_ok(arm_term, sym):
 
 
 def tree_walk(run, m, ev, arms, ftypes, tag="C20"):
-    """eval is a structural recursion: no arm looks inside a child, a child is used only as the argument of the
-    recursive eval call.  Returns the number of child uses inspected."""
-    total_uses = 0
+    """eval is a structural recursion: no arm looks inside a child, a Node is used only by handing it to the recursive
+    evaluation (typed rule, sc/treewalk.py).  Returns the number of Node-typed uses inspected."""
+    from ..treewalk import analyse
     for ctor, a in sorted(arms.items()):
-        tys = ftypes.get(ctor, [])
-        # no nested pattern on a child, no guard
         pat = a["pat"]
         nested = any(not (s == "_" or (isinstance(s, tuple) and s[0] == "bind")) for s in pat[2:]) if isinstance(pat, tuple) and pat[0] == "pvar" else True
         run.ob(not nested and not a["guard"], "no-peek|%s|%s" % (ev, ctor), tag + " the arm pattern does not look inside a child (no nested pattern, no guard)", "%s arm %s" % (where(m, "::ast::eval"), ctor), T.show(pat)[:160])
-        for k, ty in enumerate(tys):
-            sym = ("C%d" % k,)
-            if "Box<" in ty and "Node" in ty:
-                bad = []
-                n = 0
-                for path in child_uses(a["term"], sym):
-                    n += 1
-                    parent, idx = path[-1]
-                    if not (parent[0] == "ev" and idx == 1 and len(parent) == 2):
-                        bad.append(T.show(parent)[:140])
-                total_uses += n
-                run.ob(not bad, "child-use|%s|%s|%d" % (ev, ctor, k), tag + " a child is used only as the argument of the recursive eval call", "%s arm %s" % (where(m, "::ast::eval"), ctor),
-                       "child %d used in: %s" % (k, bad[:3]), sample={"evaluator": ev, "ctor": ctor, "child": k, "uses": n} if ctor in ("Add", "Pow") else None)
-            elif "Vec<" in ty and "Node" in ty:
-                bad, n = vec_child_ok(a["term"], sym)
-                total_uses += n
-                run.ob(not bad, "child-use|%s|%s|%d" % (ev, ctor, k), tag + " an argument list is only measured, iterated, and its elements passed to eval", "%s arm %s" % (where(m, "::ast::eval"), ctor),
-                       "; ".join(bad[:3]), sample={"evaluator": ev, "ctor": ctor, "list_uses": n} if ctor == "Min" else None)
-    return total_uses
+    m.tb.eval_fn()
+    walkers = set(m.tb._cache.get("walker_names", ()))
+    viol, nuses, nfns = analyse(m.F, ev, walkers, None)
+    seen = set()
+    for key, wh, detail in viol:
+        k2 = (key, detail)
+        if k2 in seen:
+            continue
+        seen.add(k2)
+        run.ob(False, "child-use|%s|%s" % (ev, key), tag + " a Node is used only by handing it to the recursive evaluation: never destructured outside the walk's own match, compared, formatted, rebuilt or passed elsewhere", wh, detail)
+    run.ob(True, "child-use|%s" % ev, tag + " typed tree-walk rule", ev, sample={"evaluator": ev, "functions_scanned": nfns, "node_typed_uses_inspected": nuses, "violations": len(viol)})
+    return nuses
 
 
 def main(tier):
